@@ -17,7 +17,7 @@ CLAIMED = {
             "documented options with explicit forward error bounds; fit path, apply path, new rows, MISSING cells, tensor blocks",
             "Generated-input search over matrices/tensors inside the stated domain (column scale >= 0.02 or exactly 0, up to 20 % "
             "missing cells, all options); every stored statistic and every observed transformed cell is compared with the reference. "
-            "Exploration of the counted cases only.",
+            "Also drawn: level-scaled columns on a tiny level (|mean| 0.002..0.009), columns with one observed cell or none, fits into an output that already holds values, fit vs apply path at the missing-coded cells. Exploration of the counted cases only.",
             "Trusted: reference statistics in /verif/engine/oracle.hpp (ref_preprocess) and the error-bound derivation in props/C10.cpp.",
             "DESIGN.md section 5, C10"),
     "C12": ("property-based testing (rapidcheck, forked ASan/UBSan children): defining equations (A*Ainv=I, Penrose conditions, "
@@ -34,29 +34,29 @@ CLAIMED = {
             "independent preprocessing reference; bit-identity on repetition, equality across processor counts (hook H1)",
             "Generated-input search over tall/square/wide matrices of controlled rank and spectrum, all 7 scalings, npc up to the rank "
             "(npc = rank forced in a third of the cases): orthonormal loadings, scores = successive projections, residual orthogonal to "
-            "the loadings, variance bookkeeping, back-transformation and score prediction. Exploration of the counted cases only.",
+            "the loadings, variance bookkeeping, back-transformation and score prediction. Failures whose signature is the NIPALS plateau (two exact principal axes taken in the other order) are attributed to the known finding pca-nipals-plateau-order; every other failure is reported. Exploration of the counted cases only.",
             "Trusted: oracle preprocessing/SVD in /verif/engine/oracle.hpp; tolerance derivations in props/C01.cpp (T1/T3).",
             "DESIGN.md section 5, C01"),
     "C02": ("property-based testing (rapidcheck): differential against a long-double cyclic Jacobi eigen-solver of E0'E0 plus metamorphic "
             "relations (row permutation, column permutation, orthogonal rotation)",
             "Generated-input search over matrices with controlled gap ratios (slow-convergence ratios forced in 45 % of the cases) and "
             "magnitudes 1e-4..1e4; loadings/explained variance compared with the eigen-decomposition within the bound implied by the "
-            "documented stopping rule (T3). Exploration of the counted cases only.",
+            "documented stopping rule (T3). A permutation of exact principal axes is attributed to the known finding pca-nipals-plateau-order; every other failure is reported. Exploration of the counted cases only.",
             "Trusted: Jacobi solver in oracle.hpp; the T3 bound (safety factor 5) is derived in DESIGN.md section 4.",
             "DESIGN.md section 5, C02"),
     "C03": ("property-based testing (rapidcheck, forked ASan/UBSan children): PLS structural identities recomputed in long double from "
             "the model fields and an independent preprocessing reference",
             "Generated-input search over X/Y of controlled conditioning, 1..4 responses, all 49 scaling pairs, nlv up to rank: orthogonal "
             "scores/weights, t_k = X_{k-1} w_k, residual orthogonality, score re-projection, LV-major layout of recalculated_y / "
-            "recalc_residuals, PLSYPredictor / PLSYPredictorAllLV. Exploration of the counted cases only.",
+            "recalc_residuals, PLSYPredictor / PLSYPredictorAllLV. A fifth of the cases are replicated two-level factorial designs with integer / exactly linear responses (X'Y covariance exhausted before rank(X)). Exploration of the counted cases only.",
             "Trusted: oracle preprocessing in oracle.hpp; orthogonality tolerance derived from the measured conditioning of each LV.",
             "DESIGN.md section 5, C03"),
     "C04": ('property-based testing (rapidcheck, forked ASan/UBSan children): differential against Householder least squares in long double, RSS/R2 monotonicity, coefficient-form vs score-form predictions, metamorphic relation y -> c*y+d',
-            'Generated-input search over full-column-rank X with 1..3 responses, noise 0..300 %, all scaling pairs, nlv = rank: OLS limit, monotone RSS/R2, PLSBetasCoeff vs PLSYPredictorAllLV on training and unseen rows, affine equivariance of a centred response. Exploration of the counted cases only.',
+            'Generated-input search over full-column-rank X with 1..3 responses, noise 0..300 %, all scaling pairs, nlv = rank: OLS limit, monotone RSS/R2, PLSBetasCoeff vs PLSYPredictorAllLV on training and unseen rows, affine equivariance of a centred response. A fifth of the cases are replicated two-level factorial designs with integer / exactly linear responses (null latent variables before rank(X)). Exploration of the counted cases only.',
             'Trusted: oracle least squares / SVD in oracle.hpp; tolerances proportional to kappa^2 measured by the oracle.',
             "DESIGN.md section 5, C04"),
     "C05": ("property-based testing (rapidcheck, forked ASan/UBSan children): refit-through-the-public-API oracle on exactly the other folds (fold matrices reported by hook H4), metamorphic relation 'changing an object's own response leaves its prediction bit-identical', partition predicates enumerated for every group count",
-            'Generated-input search over data sets, learners (PLS, MLR, LDA), LOO / labelled k-fold / bootstrap with thread counts 1..8: every prediction equals the prediction of a model refitted on the other folds, no leakage, partitions, residual columns. Exploration of the counted cases only.',
+            'Generated-input search over data sets, learners (PLS, MLR, LDA), LOO / labelled k-fold / bootstrap with thread counts 1..8: every prediction equals the prediction of a model refitted on the other folds, no leakage, partitions, residual columns. LDA is exercised in all three schemes; a third of the cases hand in result matrices already sized with another shape. Exploration of the counted cases only.',
             'Trusted: the model fitting/prediction API itself (checked by C03/C04/C07/C08) is used for the refit; hook H4 reports the folds actually used.',
             "DESIGN.md section 5, C05"),
     "C06": ("schedule-controlled property-based testing: the library's pthread_create/join are wrapped and its workers serialised at the RNG yield points (hook H2); interleavings are generated (rapidcheck, shrinkable) and, for 2-3 workers on 3-4 objects, enumerated exhaustively by depth-first re-execution; free-running repetition; ThreadSanitizer replay of generated cases",
@@ -72,7 +72,7 @@ CLAIMED = {
             'Trusted: oracle SVD for the conditioning-aware tolerances.',
             "DESIGN.md section 5, C08"),
     "C09": ("property-based testing (rapidcheck): differential against a long-double Jacobi eigen-decomposition of the block-scaled concatenation and against the library's own PCA; identities between super scores, block scores and weights",
-            'Generated-input search over 2..4 blocks, scaling 0..5, controlled gap ratios: super scores/explained variance vs PCA of the concatenation within the bound implied by the documented threshold, cumulative block variances, score prediction. Exploration of the counted cases only.',
+            'Generated-input search over 2..4 blocks, scaling 0..5, controlled gap ratios: super scores/explained variance vs PCA of the concatenation within the bound implied by the documented threshold, cumulative block variances, score prediction. 15 % of the cases are orthogonal designs split into blocks of unequal width (every column an exact eigenvector). Exploration of the counted cases only.',
             'Trusted: Jacobi solver and reference preprocessing in oracle.hpp.',
             "DESIGN.md section 5, C09"),
     "C13": ('enumeration inside generated cases: every (rows, threads) pair with rows 0..40 and threads 1..24 for each of 13 kernels, compared with the single-thread routine (bit-equal) and the long-double definition; property-based testing of distance definitions; exhaustive bijection check of the condensed index map for n <= 40',
@@ -80,27 +80,27 @@ CLAIMED = {
             'Trusted: reference loops in props/C13.cpp; hook H1 sets the processor count seen by the MT_ kernels.',
             "DESIGN.md section 5, C13"),
     "C14": ('stateful (model-based) property-based testing: operation histories over pools of containers interpreted against a shadow model after every step under ASan+UBSan in forked children; rapidcheck shrinks the op list',
-            'Generated histories of 1..40 operations (create/resize/copy/append shorter-equal-longer/delete/set/get/extend/sort/remove, out-of-range accessors) over vectors, matrices, tensors, lists: every cell and size equals the shadow model after every step, copies are deep, no sanitizer report. Exploration of the counted histories only.',
+            'Generated histories of 1..40 operations (create/resize/copy/append shorter-equal-longer/delete/set/get/extend/sort/remove, out-of-range accessors) over vectors, matrices, tensors, lists: every cell and size equals the shadow model after every step, copies are deep, no sanitizer report. Out-of-range variants of setStr/getStr and of the row/column deletions, NewDVectorList(n) and rows of every length for TensorAppendRow are part of the operation set. Exploration of the counted histories only.',
             'Trusted: the shadow model in props/c14_interp.hpp encodes the documented meaning of each operation; clang ASan/UBSan.',
             "DESIGN.md section 5, C14"),
     "C15": ('property-based testing (rapidcheck): definitions in long double with forward error bounds; exact rational Mann-Whitney count; metamorphic relations (strictly increasing maps, permutation, negation)',
-            'Generated-input search over regression vectors (scales 1e-6..1e6, missing-coded truths, perfect predictions) and binary classification with distinct scores: R2/MSE/RMSE/MAE/BIAS and statistic tables, ROC/PR shape, AUC = Mann-Whitney, invariances. Exploration of the counted cases only.',
+            'Generated-input search over regression vectors (scales 1e-6..1e6, missing-coded truths, perfect predictions) and binary classification with distinct scores: R2/MSE/RMSE/MAE/BIAS and statistic tables, ROC/PR shape, AUC = Mann-Whitney, invariances. Regression vectors also sit on levels of 1e2..1e7 x their spread, scores on scales 1e-6..1e3; the per-latent-variable ROC/PR curves stored by PLSDiscriminantAnalysisStatistics are compared point by point with ROC()/PrecisionRecall(). Exploration of the counted cases only.',
             'Trusted: the reference formulas in props/C15.cpp.',
             "DESIGN.md section 5, C15"),
     "C17": ('property-based testing (rapidcheck, forked ASan/UBSan children): validity predicates and optimality recomputed with textbook metrics in long double; differential MaxDis vs MaxDis_Fast; equality with the 1-thread run',
-            'Generated-input search over objects in general position: distinct in-range indices, max-min optimality of every selection step, centroid = mean of members, nearest-centroid within the documented tolerance, thread-count independence. Exploration of the counted cases only.',
+            'Generated-input search over objects in general position: distinct in-range indices, max-min optimality of every selection step, centroid = mean of members, nearest-centroid within the documented tolerance, thread-count independence. A sixth of the k-means cases have an object at the origin. Exploration of the counted cases only.',
             'Trusted: reference metrics in props/C17.cpp.',
             "DESIGN.md section 5, C17"),
     "C19": ('property-based testing (rapidcheck): piece identities and differential against a long-double natural spline, metamorphic unit change of x, exact polyline integral and additivity, simplex contracts on quadratics with known minimum',
-            'Generated-input search over knot vectors with spacings 1e-4..1e4 (uniform, irregular, mixed by 6 decades), polylines, strictly convex quadratics in 2..6 dimensions (random rotated ones and grid-aligned ones with integer curvatures / half-integer starts and steps, on which objective values tie exactly). Exploration of the counted cases only.',
+            'Generated-input search over knot vectors with spacings 1e-4..1e4 (uniform, irregular, mixed by 6 decades), polylines, strictly convex quadratics in 2..6 dimensions (random rotated ones and grid-aligned ones with integer curvatures / half-integer starts and steps, on which objective values tie exactly). Simplex starts that are tiny against the distance to the minimiser (3+ dimensions) are drawn too; their failures are attributed to the known finding simplex-tiny-initial-steps-collapse. Exploration of the counted cases only.',
             'Trusted: reference spline in props/C19.cpp; the simplex convergence bound (1e-6 of the initial gap) is calibrated, see DESIGN.md section 7.',
             "DESIGN.md section 5, C19"),
     "C16": ('stateful property-based testing (rapidcheck, forked ASan/UBSan children): write/read histories over model files checked against a map path -> model last written; round-trip and prediction-equality oracles',
-            'Generated histories of 1..5 Write*/Read* steps over 1..2 files and 1..3 PCA/PLS/CPCA models (magnitudes 1e-9..1e9, empty optional fields): every persisted field read back with the dimensions and values of the model last written, predictions equal, in-memory model untouched by writing. Exploration of the counted histories only.',
+            'Generated histories of 1..5 Write*/Read* steps over 1..2 files and 1..3 PCA/PLS/CPCA models (magnitudes 1e-9..1e9, empty optional fields): every persisted field read back with the dimensions and values of the model last written, predictions equal, in-memory model untouched by writing. x and y blocks on different magnitudes, up to 3 components (tensors with a third block); every field of the structures is compared (dmodx included), predictions relative to their own size. Exploration of the counted histories only.',
             'Trusted: system SQLite; the list of persisted fields is taken from the Write* functions.',
             "DESIGN.md section 5, C16"),
     "C18": ('property-based testing (rapidcheck, forked children) on exactly representable degenerate data with a deterministic iteration ceiling (hook H3) as the non-termination oracle; identities on the components up to the numerical rank',
-            'Generated integer/dyadic matrices of exact rank 0..min(shape), duplicated rows, constant columns/blocks/responses, more components than the rank, k-means with duplicate points, one-group cross-validation, simplex on constant / unbounded objectives: every call returns below the iteration ceiling, defined components are finite and satisfy the regular identities, variance beyond the rank is 0 and never NaN. Exploration of the counted cases only.',
+            'Generated integer/dyadic matrices of exact rank 0..min(shape), duplicated rows, constant columns/blocks/responses, more components than the rank, k-means with duplicate points, one-group cross-validation, simplex on constant / unbounded objectives: every call returns below the iteration ceiling, defined components are finite and satisfy the regular identities, variance beyond the rank is 0 and never NaN. PLS blocks with one constant and one varying response; the first latent variable must be non-null and maximise w'(X'Y Y'X)w whenever X'Y is not null; CPCA block variances must not be NaN. Exploration of the counted cases only.',
             "Trusted: 'bounded' means below 200000 NIPALS iterations / 5000 k-means++ passes (two orders above the slowest genuine case observed); oracle SVD for the numerical rank.",
             "DESIGN.md section 5, C18"),
     "C20": ("Hypothesis (python3-vt) differential between the repository's Python package and the same calls made from a C helper compiled against the current headers; live-object field reads through ctypes _fields_ vs the C view; compiled sizeof/offsetof table of the 10 mirrored structures",
